@@ -163,28 +163,38 @@ def Mod.headIn (names : List Name) (m : Mod) : Bool :=
   | [] => false
   | n :: _ => names.contains n
 
+/-- the members a class gets through one extends clause `tm`, given the members of the base -/
+def inheritStep (elem : Ty → Except Err (Option (String × List (List Mod))))
+    (rec : Path → Except Err (List Member)) (tm : Ty × List Mod) : Except Err (List Member) :=
+  match tm.1 with
+  | .builtin _ => .error .badExtends
+  | .cls b =>
+    match elem (.cls b) with
+    | .error e => .error e
+    | .ok (some _) => .error .badExtends
+    | .ok none =>
+      match rec b with
+      | .error e => .error e
+      | .ok ms =>
+        match firstBad (fun m => !(Mod.headIn (ms.map (·.comp.name)) m)) tm.2 with
+        | some m => .error (.unknownTarget m.path)
+        | none => .ok (ms.map fun x => { x with ext := x.ext ++ [tm.2] })
+
 def membersF : Nat → Lib → Path → Except Err (List Member)
   | 0, _, _ => .error .fuel
   | f + 1, lib, p =>
     match lib.find p with
     | none => .error (.noClass p)
     | some d =>
-      match mapE (fun (tm : Ty × List Mod) =>
-          match tm.1 with
-          | .builtin _ => (.error .badExtends : Except Err (List Member))
-          | .cls b =>
-            match elemOf f lib (.cls b) with
-            | .error e => .error e
-            | .ok (some _) => .error .badExtends
-            | .ok none =>
-              match membersF f lib b with
-              | .error e => .error e
-              | .ok ms =>
-                match firstBad (fun m => !(Mod.headIn (ms.map (·.comp.name)) m)) tm.2 with
-                | some m => .error (.unknownTarget m.path)
-                | none => .ok (ms.map fun x => { x with ext := x.ext ++ [tm.2] })) d.exts with
+      match mapE (inheritStep (elemOf f lib) (membersF f lib)) d.exts with
       | .error e => .error e
       | .ok inh => .ok (inh.flatten ++ d.comps.map fun k => { comp := k, ext := [] })
+
+def inheritEqStep (rec : Path → Except Err (List (Expr × Expr))) (tm : Ty × List Mod) :
+    Except Err (List (Expr × Expr)) :=
+  match tm.1 with
+  | .builtin _ => .error .badExtends
+  | .cls b => rec b
 
 def memberEqsF : Nat → Lib → Path → Except Err (List (Expr × Expr))
   | 0, _, _ => .error .fuel
@@ -192,10 +202,7 @@ def memberEqsF : Nat → Lib → Path → Except Err (List (Expr × Expr))
     match lib.find p with
     | none => .error (.noClass p)
     | some d =>
-      match mapE (fun (tm : Ty × List Mod) =>
-          match tm.1 with
-          | .builtin _ => (.error .badExtends : Except Err (List (Expr × Expr)))
-          | .cls b => memberEqsF f lib b) d.exts with
+      match mapE (inheritEqStep (memberEqsF f lib)) d.exts with
       | .error e => .error e
       | .ok inh => .ok (inh.flatten ++ d.eqs)
 
@@ -270,6 +277,18 @@ def mkLeaf (P : Path) (k : Comp) (b : String) (tms : List (List Mod)) (all : Lis
     | none => .ok ([{ path := P ++ [k.name], ty := b, prefixes := stripIO P k.prefixes,
                       dims := dims ++ k.dims, binds := tm ++ all }], [])
 
+/-- the part of the instance tree below member `m` of a class instantiated at `P` -/
+def instStep (elem : Ty → Except Err (Option (String × List (List Mod))))
+    (rec : Path → Path → List MMod → List Nat → Except Err (List Var × List IEq))
+    (P : Path) (outer : List MMod) (dims : List Nat) (m : Member) : Except Err (List Var × List IEq) :=
+  match elem m.comp.ty with
+  | .error e => .error e
+  | .ok (some (b, tms)) => mkLeaf P m.comp b tms (allMods P m.comp m.ext outer) dims
+  | .ok none =>
+    match m.comp.ty with
+    | .builtin _ => .error .badExtends
+    | .cls c' => rec c' (P ++ [m.comp.name]) (allMods P m.comp m.ext outer) (dims ++ m.comp.dims)
+
 /-- Instantiate class `c` at instance prefix `P`, with the modifications `outer` of the enclosing
     levels and the dimensions `dims` of the enclosing array components. -/
 def instF : Nat → Lib → Path → Path → List MMod → List Nat → Except Err (List Var × List IEq)
@@ -287,15 +306,7 @@ def instF : Nat → Lib → Path → Path → List MMod → List Nat → Except 
           match memberEqsF f lib c with
           | .error e => .error e
           | .ok eqs =>
-            match mapE (fun (m : Member) =>
-                match elemOf f lib m.comp.ty with
-                | .error e => (.error e : Except Err (List Var × List IEq))
-                | .ok (some (b, tms)) => mkLeaf P m.comp b tms (allMods P m.comp m.ext outer) dims
-                | .ok none =>
-                  match m.comp.ty with
-                  | .builtin _ => .error .badExtends
-                  | .cls c' => instF f lib c' (P ++ [m.comp.name]) (allMods P m.comp m.ext outer)
-                                 (dims ++ m.comp.dims)) ms with
+            match mapE (instStep (elemOf f lib) (instF f lib) P outer dims) ms with
             | .error e => .error e
             | .ok rs =>
               .ok ((rs.map (·.1)).flatten,
